@@ -187,6 +187,17 @@ theorem src_seen (hy : Hyp H c) {s : Sys} (hI : Inv H c s) (ih : TotInv c s) {i 
     rw [hm3] at hv
     exact seen_mono hm (ih.dl l' msg.tag v hv)
 
+theorem mem_dlAfter {dl : List (Nat × Tag × Int)} {i : Nat} {tag : Tag} {o : Outcome}
+    {x : Nat × Tag × Int} (h : x ∈ dlAfter dl i tag o) :
+    x ∈ dl ∨ ∃ who m, o = .delivered who m ∧ x = (i, tag, m) := by
+  cases o with
+  | delivered who m =>
+    rcases List.mem_append.1 h with h | h
+    · exact Or.inl h
+    · exact Or.inr ⟨who, m, rfl, List.mem_singleton.1 h⟩
+  | idle => exact Or.inl h
+  | threw => exact Or.inl h
+
 theorem totInv_step (hy : Hyp H c) {s s' : Sys} (hI : Inv H c s) (hI' : Inv H c s')
     (hm : Micro H T c s s') (ih : TotInv c s) : TotInv c s' := by
   have hfr := hm.frame
@@ -252,17 +263,12 @@ theorem totInv_step (hy : Hyp H c) {s s' : Sys} (hI : Inv H c s) (hI' : Inv H c 
     have hP0 := hI.parties i0 hi0
     refine ⟨?_, ?_, ?_⟩
     · intro i τ v h
-      cases ho : o with
-      | delivered who m =>
-        rw [ho] at h
-        rcases List.mem_append.1 h with h | h
-        · exact seen_mono hm0 (ih.dl i τ v h)
-        · simp only [List.mem_singleton, Prod.mk.injEq] at h
-          obtain ⟨_, rfl, _⟩ := h
-          obtain ⟨hsrc, hid⟩ := k2 who m ho
-          exact src_seen hy hI ih hi0 hl0 hin hD hI' (hid.trans hP0.cID) hsrc
-      | idle => rw [ho] at h; exact seen_mono hm0 (ih.dl i τ v h)
-      | threw => rw [ho] at h; exact seen_mono hm0 (ih.dl i τ v h)
+      rcases mem_dlAfter h with h | ⟨who, m, ho, hx⟩
+      · exact seen_mono hm0 (ih.dl i τ v h)
+      · simp only [Prod.mk.injEq] at hx
+        obtain ⟨_, rfl, _⟩ := hx
+        obtain ⟨hsrc, hid⟩ := k2 who m ho
+        exact src_seen hy hI ih hi0 hl0 hin hD hI' (hid.trans hP0.cID) hsrc
     · intro i hi e he hid
       by_cases hi0' : i = i0
       · subst hi0'
